@@ -384,10 +384,34 @@ def run_config(prog, tab, cfg):
             r5.bad(f, epn, "%s is reachable from a decoder slot and calls the entry point %s, which copies the codec context into its own frame: "
                            "the stack budget starts again at every nesting level and the limit never triggers" % (f.name, epn), line,
                    witness={"call_path": cg.path(sorted(slot_keys), k)})
-    for r in (r1, r2, r3, r5):
+    # R15.6: the stack checker takes a NULL context for `no limit`.  The only functions that may be given a NULL codec
+    # context are the entry points, which replace it by a context carrying the default limit.
+    r6 = Rule("R15.6", "a codec context parameter is given a NULL constant only at calls of the decode entry points (which install the default limit)", floor=60)
+    epnames = {x["function"] for x in tab["entry_points"]}
+    for f in sorted(prog.funcs.values(), key=lambda f: f.key):
+        n = 0
+        for b, i, e in f.calls():
+            tgt = prog.func(e["callee"]) if e.get("callee") else None
+            for ai, a in enumerate(e.get("args", [])):
+                if tgt is not None:
+                    if ai >= len(tgt.params) or "asn_codec_ctx" not in tgt.params[ai]["type"]:
+                        continue
+                elif not (e.get("slot") in common.DECODER_SLOTS and ai == 0):
+                    continue
+                n += 1
+                cal = e.get("callee") or "->" + e["slot"]
+                key = "%s(ctx)#%d" % (cal, n)
+                if const_of(a.get("tree")) != 0:
+                    r6.ok(f, key, "the context handed on is `%s`" % tree_text(a.get("tree")), e["line"], nontrivial=False)
+                elif cal in epnames:
+                    r6.ok(f, key, "NULL given to an entry point, which installs the default stack limit", e["line"])
+                else:
+                    r6.bad(f, key, "%s is called with a NULL codec context: its stack check (ASN__STACK_OVERFLOW_CHECK) and every check below "
+                                   "it is switched off, so nesting in the input is limited by the C stack only" % cal, e["line"])
+    for r in (r1, r2, r3, r5, r6):
         for i in r.insts:
             i.config = cfg
-    return [r1, r2, r3, r5]
+    return [r1, r2, r3, r5, r6]
 
 
 def run(ctx):
